@@ -326,7 +326,15 @@ impl C17 {
                         harden_dem(others, which, k, rng).map(|s| format!("other chains: {}", s))
                     } else {
                         // harden the chain itself consistently: rebuild prefix/full from the last callback's model
-                        if let Dem::Rbf(a, c) = last {
+                        // (only for chains whose callbacks all use the one arrival model of the chain; chains whose
+                        // callbacks carry their own activation jitter are hardened through `other chains` only)
+                        let single_model = match &*last {
+                            Dem::Rbf(a, _) => prefix.arrs().iter().all(|x| *x == a) && full.arrs().iter().all(|x| *x == a),
+                            _ => false,
+                        };
+                        if !single_model {
+                            None
+                        } else if let Dem::Rbf(a, c) = last {
                             let (mut a2, mut c2) = (a.clone(), c.clone());
                             let ok = match which {
                                 0 => bump_cost(&mut c2, k),
